@@ -103,12 +103,24 @@ extern "C" void h_delverts(int ver, int feat, int k, int second) {
 	}
 	nif.DeleteVertsForShape(s, idx);
 	check_shape(nif, s, v0, u0, t0, idx);
-	// LOCKEDNORM entries refer to existing vertices
+	// LOCKEDNORM: entries of deleted vertices are gone, the others are re-indexed in order
 	for (auto& er : s->extraDataRefs) {
 		auto ied = nif.GetHeader().GetBlock<NiIntegersExtraData>(er);
-		if (ied && ied->name == "LOCKEDNORM")
+		if (ied && ied->name == "LOCKEDNORM") {
+			const unsigned orig[3] = {0, 2, 3};
+			size_t o = 0;
+			for (unsigned e : orig) {
+				if (del_has(idx, e))
+					continue;
+				sym_assert(o < ied->integersData.size(), "C09-file-lockednorm-missing: locked-normal entry of a surviving vertex disappeared");
+				if (o < ied->integersData.size())
+					sym_assert(ied->integersData[o] == new_index(idx, e), "C09-file-lockednorm-reindex: locked-normal entry of a surviving vertex not re-indexed");
+				o++;
+			}
+			sym_assert(o == ied->integersData.size(), "C09-file-lockednorm-count: locked-normal list keeps an entry of a deleted vertex");
 			for (uint32_t i = 0; i < ied->integersData.size(); i++)
 				sym_assert(ied->integersData[i] < (uint32_t) (n - k), "C09-file-lockednorm: locked-normal list refers to a vertex beyond the new count");
+		}
 	}
 	if (second && n - k >= 2) {
 		std::vector<Vector3> v1;
